@@ -119,7 +119,7 @@ class Kernel:
         self.activity += 1
         return len(self.events) - 1
 
-    def start_watchdog(self, idle_s=0.5):
+    def start_watchdog(self, idle_s=2.0):
         """If the main thread sits in a lock wait (e.g. joining a tee thread that
         waits for EOF from a child that nobody killed), virtual children would
         never make progress.  A real child eventually ends by itself: after
